@@ -68,6 +68,15 @@ Theorem common_unit_is_the_finest : forall us : list Z, us <> [] ->
 Proof. exact common_unit_finest. Qed.
 Print Assumptions common_unit_is_the_finest.
 
+(* ---- how long an HTTP source may take and still be a fetched source ---- *)
+(* an explicit -timeout t gives the server t + 5 s; whatever the flags, the client waits at least 5 s
+   longer than the timeout adjustURL settled on, and never less than 6 s *)
+Theorem client_allows_timeout_plus_grace : forall s t u,
+  (0 < t -> client_allowance_ms s t u = t * 1000 + 5000)%Z /\
+  (fetch_timeout_ms s t u + 5000 <= client_allowance_ms s t u)%Z /\ (6000 <= client_allowance_ms s t u)%Z.
+Proof. exact client_allowance_spec. Qed.
+Print Assumptions client_allows_timeout_plus_grace.
+
 (* ---- the transport shared by the fetches of one run keeps no per-request state ---- *)
 (* a request's TLS outcome is that of the same request on a fresh transport, whatever went before *)
 Theorem transport_outcome_history_free : forall W (rs : list (W * tr_req)) st,
